@@ -321,8 +321,9 @@ func runC01(r *Report, rng *rand.Rand, thorough bool) {
 	runC01Names(r, rng, thorough)
 	runC01Probes(r, ck)
 	runC01Split(r, ck)
+	runC01OpIDs(r, ck)
 	runC01Generated(r, rng, ck, thorough)
-	r.Rule = "gate = codegen.Generate (panics recovered) -> go/parser -> gofmt fixed point -> go/types against the export data of the pinned runtime and framework libraries; families: (1) every OpenAPI document of the repository (internal/test, examples, pkg/codegen) under 7 frameworks x {plain, strict} + client + models + echo/client/embedded-spec (all 17 in the thorough tier, 5 chosen by the seed in the quick tier), documents with external references together with the packages generated for the documents they refer to; (2) probe documents, one per recorded defect; (2b) split specifications: a document referring into a second one from every schema position (property, array items, additionalProperties, allOf member whose schema has a document-local property reference / array-items reference, allOf member that is itself composed, oneOf member, alias) plus parameter / body / response references, both packages type-checked together under models, chi and client; (3) random documents of supported constructs (schemas incl. nesting, refs, allOf, oneOf/anyOf, enums, additionalProperties, nullable, extensions; parameters in every location / style / shape; bodies and responses of every handled media type; headers; security; reusable components) with tame and adversarial names that normalise to distinct identifiers, each under a random configuration (target, client, embedded spec, 8 compatibility flags, 4 normalisers, prune, skip-fmt, nullable-type, suffix, client type name, alias switch), failures shrunk; (4) SchemaNameToTypeName / ToCamelCase / ToCamelCaseWithDigits / SanitizeGoIdentity on random names and GenerateTypes on random type lists against the model in Coq. Every diagnostic of a failing gate must be explained by a recorded root cause."
+	r.Rule = "gate = codegen.Generate (panics recovered) -> go/parser -> gofmt fixed point -> go/types against the export data of the pinned runtime and framework libraries; families: (1) every OpenAPI document of the repository (internal/test, examples, pkg/codegen) under 7 frameworks x {plain, strict} + client + models + echo/client/embedded-spec (all 17 in the thorough tier, 5 chosen by the seed in the quick tier), documents with external references together with the packages generated for the documents they refer to; (2) probe documents, one per recorded defect; (2b) split specifications: a document referring into a second one from every schema position (property, array items, additionalProperties, allOf member whose schema has a document-local property reference / array-items reference, allOf member that is itself composed, oneOf member, alias) plus parameter / body / response references, both packages type-checked together under models, chi and client; (2c) twenty operation ids of adversarial spellings (separators before a digit, symbols, keywords, predeclared names, non-ASCII) under chi+strict, client and echo; (3) random documents of supported constructs (schemas incl. nesting, refs, allOf, oneOf/anyOf, enums, additionalProperties, nullable, extensions; parameters in every location / style / shape; bodies and responses of every handled media type; headers; security; reusable components) with tame and adversarial names that normalise to distinct identifiers, each under a random configuration (target, client, embedded spec, 8 compatibility flags, 4 normalisers, prune, skip-fmt, nullable-type, suffix, client type name, alias switch), failures shrunk; (4) SchemaNameToTypeName / ToCamelCase / ToCamelCaseWithDigits / SanitizeGoIdentity on random names and GenerateTypes on random type lists against the model in Coq. Every diagnostic of a failing gate must be explained by a recorded root cause."
 }
 
 func c01RandomConfig(rng *rand.Rand, targets []c01Target) (codegen.Configuration, string) {
